@@ -15,7 +15,7 @@ P = {
          "Generated (size up to 2^16 quick / 2^20 thorough, six priority patterns, target class, new-priority class) measurements on evolving queues of both kinds: peeks/lookups must perform 0 comparisons (peek_max <= 1), single-element operations <= 16*(floor(log2 n)+1)+32, bulk rebuilds <= 8*(n+k)+64. The constants sit 2.7x-5x above the maxima observed on the unchanged tree and far below any linear (resp. n log n) cost at the sizes explored; deterministic, no timing.", "3 C05"),
  "C06": ("property-based testing of sorted consumption (call programs over next/next_back/len against the remaining-model extremes)",
          "States reached by histories are consumed through into_sorted_iter programs (both ends, past exhaustion, via rev) and the sorted-vec forms; each yielded element must be the extreme of what remains, each element exactly once, len() exact.", "3 C06"),
- "C07": ("property-based testing with a metamorphic size_hint relation (same pairs under 10 legal hint modes) + model of first/last-wins semantics",
+ "C07": ("property-based testing with a metamorphic size_hint relation (same pairs under 16 legal hint modes) + model of first/last-wins semantics",
          "Bulk operations with generated duplication and clashes are checked against the specified contents, followed by a full drain check; every extend/from_iter is repeated on clones under 10 legal size_hint modes (exact, unknown, loose, upper bound up to usize::MAX) and all results must be identical and panic-free.", "3 C07"),
  "C08": ("model-based property testing with logging predicates (retain/retain_mut/iter_mut/pop_if with generated masks and rewrites)",
          "The predicate call log must be a permutation of the content, kept elements and written priorities must be exactly the requested ones, pop_if predicates must see the peeked extreme; a drain check follows each call.", "3 C08"),
@@ -35,13 +35,27 @@ P = {
          "Serialize/deserialize through JSON text, serde_json::Value and a SeqDeserializer, as the same and the other queue kind; the result must equal the original and pass all observations. Arbitrary pair sequences with duplicates must deserialize without panic into a consistent queue or an error.", "3 C15"),
  "C16": ("model-based stateful property testing of drain/clear with consumption programs, leaks, and continuation histories",
          "drain with generated front/back consumption, dropped or forgotten, and clear; the queue must be empty at once and every continuation must behave as on a fresh queue (reference model started from empty).", "3 C16"),
- "C18": ("differential property testing across five BuildHasher configurations (incl. all-colliding) against a shared reference model",
+ "C18": ("differential property testing across seven BuildHasher configurations (incl. all-colliding, four-valued and a specialised hash_one) against a shared reference model",
          "The same generated history is executed under RandomState (new()), a fixed hasher, a keyed RandomState via with_hasher, XxHash64 and an all-colliding hasher; each execution is checked against the model and the return-value traces must agree pairwise up to the choice among equal priorities.", "3 C18"),
  "C17": ("model-based stateful property testing with capacity operations interleaved + differential twin without them (exact trace equality); unsatisfiable try_reserve amounts",
          "Capacity ops are invisible to the reference model, so any influence on contents, extraction order or later results is a failure; in addition every history is re-run as a twin without its capacity operations and the two return-value traces must agree item for item, also among equal priorities; capacity() lower bounds are asserted; unsatisfiable try_reserve must return Err without panic and leave the queue unchanged.", "3 C17"),
 }
 NOT_YET = {
 }
+# round 6: what was added to each check (appended to the level text; DESIGN.md section 8.1)
+ADD = {
+ "C01": " Round 6: a position battery on steered queues of 4 094-131 072 elements (operations aimed at level boundaries, the last parent and its lone child; raw anomalies are turned into witnesses by grow-and-drain), neutral operations before and between the steps of the huge-queue scripts, size hints that fall short by the number of clashes, targets biased to the ends of the heap vector and of the slot order.",
+ "C02": " Round 6: the position battery and the neutral operations of C01 on the min-max heap.",
+ "C03": " Round 6: change_priority is judged on which of two equal priority objects (a stamp ignored by Ord/Eq) it returns and stores, as push already was.",
+ "C05": " Round 6: one case in fifty is a long script on 1 023-32 769 elements (thorough 262 145) with a history (construction by pushes, neutral operations, partial iter_mut, append, extend, retain, clone, clear, refill, full drains) in which every public call is bounded.",
+ "C06": " Round 6: a sorted-fill sweep (queues filled in descending / ascending / all-equal / run-descending order, every size up to 130 and a sparse set up to 1 100, nine late disturbances near the bottom of the heap, then every form of sorted consumption).",
+ "C07": " Round 6: 16 hint modes, incl. lower bounds that fall short by a few and bounds equal to the number of pairs that make the receiver grow.",
+ "C11": " Round 6: the position battery of C01/C02 with push_increase / push_decrease on queues of 4 094-131 072 elements.",
+ "C14": " Round 6: a near miss replaced in place (same index tables, same length, same first and last slots as the source).",
+ "C17": " Round 6: a capacity battery of 7 amounts from 65 537 to 8 388 608 elements through every capacity-taking constructor and every reservation call.",
+ "C18": " Round 6: a sixth configuration, a BuildHasher whose hash_one is specialised differently from its streaming path (as ahash does).",
+}
+P = {k: (v[0], v[1] + ADD.get(k, ""), v[2]) for k, v in P.items()}
 checks = []
 for pid, (tech, text, ref) in sorted(P.items()):
     checks.append({
